@@ -86,6 +86,7 @@ pub enum OpK {
     Burst,
     Fork,
     AwaitLog,
+    AwaitLogSync,
     // registry
     FromRegistry,
     Setup,
